@@ -586,6 +586,7 @@ static std::string c08_value(Rng &r, const std::string &opt, const World &w, boo
         case 2: v = "log_" + v; for (auto &c : v) c = (char)tolower(c); break;
         case 3: v = "Log_" + v.substr(0, 1) + std::string(v.size() > 1 ? v.substr(1) : ""); break;
         case 4: { static const char *g[] = {"", "garbage", "LOG_", "LOCAL8", "INFOO", "WARN", "AUT", "7", "LOG_LOG_INFO", "AUTH PRIV"}; v = g[r.below(10)]; break; }
+        case 5: if (!roundtrip) { static const char *tail[] = {"S", "s", "x", "_", "0", "ING", "_X"}; if (r.chance(1, 2)) v = (r.chance(1, 2) ? "LOG_" : "log_") + v; v += tail[r.below(7)]; } break;   // every valid name with something behind it: not a name
         default: break;
         }
         return v;
@@ -735,7 +736,9 @@ static std::string c02_config(Rng &r, const World &w, J &probes) {
     case 6: { size_t n = (size_t)r.range(4090, 4100); extra = std::string(n, 'p'); s.has_output = true; s.output = "file:/log/%{env:LONGPATH}"; probes.set("p_path_near_max", true); break; }
     case 7: { s.has_dsmax = true; s.dsmax = r.chance(1, 2) ? "1048575" : "255"; s.has_logmax = true; s.logmax = r.chance(1, 2) ? "1048575" : "255"; s.has_format = true; s.format = "%{env_all}|%{cmdline}|%{env:LONGPATH}"; extra = std::string((size_t)r.range(200, 300000), 'e'); probes.set("p_limit_1mib", s.dsmax == "1048575"); break; }
     case 8: { size_t n = (size_t)r.range(1018, 1030); std::string line = "message_format = " + std::string(n > 17 ? n - 17 : 1, 'M'); probes.set("p_line_ge_1024", n >= 1024); return "[snoopy]\n" + line + "\noutput = file:/log/x\n" + (r.chance(1, 2) ? std::string(5000, 'Z') + "\n" : ""); }
-    case 9: { s.has_chain = true; size_t n = (size_t)r.range(900, 990); s.chain = r.chance(1, 3) ? std::string(n, 'f') : r.chance(1, 2) ? "only_uid:" + std::string(n, '9') : "exclude_spawns_of:" + std::string(n, ','); break; }
+    case 9: { s.has_chain = true; size_t n = (size_t)r.range(900, 990); s.chain = r.chance(1, 3) ? std::string(n, 'f') : r.chance(1, 2) ? "only_uid:" + std::string(n, '9') : "exclude_spawns_of:" + std::string(n, ',');
+        if (r.chance(1, 2)) { static const int nl[] = {99, 100, 101, 128, 255, 256, 300, 990}; size_t k = (size_t)nl[r.below(8)]; s.chain = (r.chance(1, 2) ? "only_uid:0;" : "") + std::string(k, 'N') + (r.chance(3, 4) ? ":" + std::string((size_t)r.range(0, 5), 'a') : "") + (r.chance(1, 2) ? ";noop" : ""); }   // long NAME, with and without an argument
+        break; }
     case 10: { s.has_chain = true; static const char *v[] = {"only_uid:", "only_uid:,", "exclude_uid:,,,", "only_uid:abc", "exclude_spawns_of:", "exclude_spawns_of:,", ":", ";", ":;:", "only_uid:-1", "only_uid:99999999999999999999", "only_tty:x"}; s.chain = v[r.below(12)]; break; }
     case 11: { s.has_format = true; static const char *v[] = {"%{", "%{}", "%", "%{:", "%{:}", "%{cgroup}", "%{cgroup:}", "%{datetime:%}", "%{datetime:%Ez%Oy%+}", "%{env:}", "%{env:=}", "%{snoopy_literal:%{uid}}"}; s.format = v[r.below(12)]; break; }
     case 12: { s.has_format = true; s.format = "%{datetime:" + std::string((size_t)r.range(30, 200), r.chance(1, 2) ? 'A' : '%') + "}"; break; }
@@ -775,13 +778,19 @@ static Plan gen_c02(uint64_t seed, const std::string &tier) {
     if (r.chance(1, 10) && !w.environ_null) { w.login_errno = 6; w.env.push_back(std::string(r.chance(1, 2) ? "SUDO_USER=" : "LOGNAME=") + std::string((size_t)r.range(250, 260), 'l')); probes.set("p_long_login_fallback", true); }
     if (r.chance(1, 10)) { w.procs[0].cgroup = {"1:name=systemd:/user.slice/user-" + std::string(r.chance(1, 2) ? "12" : "x") + (r.chance(1, 2) ? ".slice" : ""), "garbage", "::", "3:cpu"}; }
     if (r.chance(1, 10)) w.files["/etc/hosts"].content = r.chance(1, 2) ? std::string(3000, 'h') : w.hostname + "." + std::string(1500, 'd') + "\n" + "1.2.3.4 " + w.hostname + ".";
+    // the calling thread is not always the main thread with its 8 MiB: threads of runtimes and daemons have stacks of 1 MiB and less, and the
+    // buffers the limits permit (1 MiB) must not be taken from there
+    bool small_stack = r.chance(1, 30);
+    if (small_stack) { cfg = "[snoopy]\nmessage_format = %{cmdline} %{env:HOME} %{filename}\ndatasource_message_max_length = " + std::string(r.chance(1, 2) ? "1048575" : "1m") + "\nlog_message_max_length = 1048575\noutput = file:/log/small-stack.log\n"; probes.set("p_thread_with_1mib_stack", true); }
     p.ops.push_back(op_setconfig(cfg));
     int n = (int)r.range(1, 2);
+    Op batch; batch.op = "Batch"; batch.policy = 0; batch.sched_seed = seed; batch.threads.emplace_back();
     for (int i = 0; i < n; i++) {
         int sc = (int)r.below(20); sc = sc < 8 ? 0 : sc < 14 ? 1 : sc < 19 ? 2 : 3;
         ExecOp e = gen_exec(r, "z" + std::to_string(i), sc); gen_outcome(r, e, i == n - 1);
-        p.ops.push_back(op_exec(e));
+        if (small_stack) { e.success = false; e.ret = -1; if (!e.err) e.err = 2; batch.threads[0].push_back(e); } else p.ops.push_back(op_exec(e));
     }
+    if (small_stack) p.ops.push_back(batch);
     p.extra.set("probes", probes);
     return p;
 }
